@@ -314,7 +314,7 @@ func printResult(res *interp.Result, verbose bool) {
 		key := v.Label + "|" + v.Tag + "|" + v.Kind
 		seen[key]++
 		if seen[key] <= 3 || verbose {
-			fmt.Printf("VIOL %s tag=%q kind=%s inconclusive=%v detail=%q inputs=%v\n", v.Label, v.Tag, v.Kind, v.Inconclusive, v.Detail, v.Inputs)
+			fmt.Printf("VIOL %s tag=%q kind=%s inconclusive=%v detail=%q inputs=%v choices=%v\n", v.Label, v.Tag, v.Kind, v.Inconclusive, v.Detail, v.Inputs, v.ChoiceVals)
 		}
 	}
 	for k, n := range seen {
